@@ -135,7 +135,8 @@ def markup(text):
 
 
 def hostile_sites(p):
-    """site keys at which this project puts markup-significant text into an unescaped field"""
+    """site keys at which this project puts markup-significant text into a still unescaped field
+    (full_type / full_declaration: kind and length of variables, everything of a function result)"""
     out = []
     allv = list(p["mod_vars"]) + list(p["tvars"])
     for pr in p["procs"]:
@@ -145,19 +146,12 @@ def hostile_sites(p):
     for d in allv:
         if d.get("kind") and markup(d["kind"]) or d.get("strlen") and markup(d["strlen"]):
             out.append("macros.html:var.full_type | relurl(page_url)#1")
-        if any(markup(a) for a in d.get("attribs", [])):
-            out.append("macros.html:var.attribs | join(\", \")#1")
-        if d.get("dim") and markup(d["dim"]):
-            out.append("macros.html:var.dimension#1")
     for pr in p["procs"]:
-        if pr["bind"] and markup(pr["bind"]):
-            out.append("macros.html:proc.bindC#1")
         if pr["ret"] and markup(pr["ret"]["kind"]):
             out.append("macros.html:proc.retvar.full_declaration | relurl(page_url)#1")
     f = p["iface"]
     if f and markup(G.iface_ret_text(f)):
-        out.append({"kind": "nongenint_page.html:var.kind#1", "strlen": "nongenint_page.html:var.strlen#1",
-                    "dimattr": "nongenint_page.html:attrib#1", "dim": "nongenint_page.html:var.dimension#1"}[f["retform"]])
+        out.append("macros.html:proc.retvar.full_declaration | relurl(page_url)#1")
     return out
 
 
@@ -176,10 +170,8 @@ def classify(pb, p, known):
         if site in known and markup(exp):
             return "site:" + site
         return None
-    if what == "heading-text" and site == "macros.html:proc.bindC#1":
-        if markup(pb["expected"]):
-            return "site:" + site
-        if pb.get("blanks"):
+    if what == "heading-text" and site == "macros.html:proc.bindC | e#1":
+        if pb.get("blanks") and not pb.get("extra_tags"):
             return "bindc-blanks-collapse"
         return None
     if what == "return-value":
@@ -285,9 +277,9 @@ def witness_facts():
                     return R.browser_text(tr_)
             return None
         r = row("arr")
-        facts["site:macros.html:var.dimension#1"] = r is None or "k<n" not in r
+        facts["probe:macros.html:var.dimension | e#1"] = r is None or "k<n" not in r
         r = row("arr2")
-        facts["site:macros.html:var.attribs | join(\", \")#1"] = r is None or "k<n" not in r
+        facts["probe:macros.html:var.attribs | join(\", \") | e#1"] = r is None or "k<n" not in r
         r = row("kk")
         facts["site:macros.html:var.full_type | relurl(page_url)#1"] = r is None or "kind(k<n)" not in R.squash(r)
         r, r2 = row("cstar"), row("clen")
@@ -301,7 +293,7 @@ def witness_facts():
         facts["probe:macros.html:var.initial|e#1"] = r is None or "'<u>x</u>'//\"a  b & c\"" not in R.squash(r) \
             or bool(soup.select("table.varlist u"))
         heads = [R.browser_text(h) for h in soup.find_all(["h2", "h3"])]
-        facts["site:macros.html:proc.bindC#1"] = not any('name="s<u>name"' in h for h in heads)
+        facts["probe:macros.html:proc.bindC | e#1"] = not any('name="s<u>name"' in h for h in heads)
         facts["bindc-blanks-collapse"] = not any('name="two  blanks"' in h for h in heads)
         rv = [R.squash(R.browser_text(h)) for h in soup.find_all(["h3", "h4"]) if R.browser_text(h).startswith("Return Value")]
         facts["site:macros.html:proc.retvar.full_declaration | relurl(page_url)#1"] = \
@@ -315,16 +307,15 @@ def witness_facts():
         facts["site:proc_page.html:procedure.retvar.full_declaration | relurl(page_url)#1"] = \
             bool(rv) and not any("integer(kind=kind(k<n))" in x for x in rv)
         tbh = [R.browser_text(h) for h in tp.find_all(["h2", "h3", "h4"])]
-        facts["site:macros.html:proc.bindC#2"] = any("subroutine s" in h.replace("  ", " ") for h in tbh) and \
-            not any('name="s<u>name"' in h for h in tbh)
-        for name, key, want in (("g1", "nongenint_page.html:var.kind#1", "integer(kind=kind(k<n))"),
-                                ("g2", "nongenint_page.html:var.strlen#1", "character(len=kind(k<n))"),
-                                ("g3", "nongenint_page.html:attrib#1", "dimension(merge(2,3,k<n))"),
-                                ("g4", "nongenint_page.html:var.dimension#1", "(merge(2,3,k<n))"),
-                                ("g5", "nongenint_page.html:var.proto[1]#1", "(k<n)")):
+        facts["probe:macros.html:proc.bindC | e#2"] = not any('name="s<u>name"' in h for h in tbh)
+        for name, key, want in (("g1", "nongenint_page.html:var.kind | e#1", "integer(kind=kind(k<n))"),
+                                ("g2", "nongenint_page.html:var.strlen | e#1", "character(len=kind(k<n))"),
+                                ("g3", "nongenint_page.html:attrib | e#1", "dimension(merge(2,3,k<n))"),
+                                ("g4", "nongenint_page.html:var.dimension | e#1", "(merge(2,3,k<n))"),
+                                ("g5", "nongenint_page.html:var.proto[1] | e#1", "k<n")):
             ip = BeautifulSoup(_page(doc, f"interface/{name}.html"), "html.parser")
             rv = [R.squash(R.browser_text(h)) for h in ip.find_all(["h3", "h4"]) if R.browser_text(h).startswith("Return Value")]
-            facts["site:" + key] = bool(rv) and not any(want in x for x in rv)
+            facts["probe:" + key] = not rv or not any(want in x for x in rv)
         ip = BeautifulSoup(_page(doc, "interface/g6.html"), "html.parser")
         rv = [R.squash(R.browser_text(h)) for h in ip.find_all(["h3", "h4"]) if R.browser_text(h).startswith("Return Value")]
         facts["nongenint-proto-args-parens"] = bool(rv) and not any("type(t_t(4))" in x for x in rv)
